@@ -3,7 +3,7 @@ from .pdb import strip, walk, loc, ancestors
 from .terms import Ctx, lin_add, num, show, lin_parts
 from .common import (P, F, LEN, SIZE, NE, effective_guards, effects, callee_path, callee_generic, call_args, subst_term,
                      rule_no_unsafe, is_call_like, in_macro, is_push)
-from .guards import for_range as raw_for_range
+from .guards import for_range as raw_for_range, facts
 from .common import for_range_total as for_range
 
 LEVEL = "other"
@@ -183,6 +183,18 @@ def run(rep, pdb, tier):
     if okr:
       rep.add("result-unmodified", "the function returns the joined sum itself: the accumulator starts at 0.0, is written only by the join loop, and nothing post-processes it "
               "(an absolute `snap to zero` threshold turns every genuinely small dot product into 0.0)", okv, lp, detv)
+    # ---- no other way out: a fast path that computes the value differently is not the partitioned sum
+    rets = [r_ for r_ in walk(fn["body"]) if r_.get("k") == "Ret" and not any(a.get("k") == "Closure" for a in ancestors(r_))]
+    bad_r = []
+    for r_ in rets:
+        v_ = ctx.term(r_["e"]) if r_.get("e") is not None else None
+        fs_ = facts(ctx, r_)
+        empty = any(f_[0] == "cmp" and f_[1] == "==" and {f_[2], f_[3]} & {num(0)} and ({f_[2], f_[3]} & {SIZE(P(0)), SIZE(P(1))}) for f_ in fs_)
+        if not (v_ == num(0) and empty):
+            bad_r.append(r_)
+    rep.add("no-fast-path", "dot_f64 returns through the scoped reduction only: an early `return` is allowed for the empty vector (value 0.0) and nothing else - a shortcut for "
+            "aliased, short or special operands computes the value by another formula (e.g. norm_2()^2), which is not the bit-for-bit re-associated sum the property compares",
+            not bad_r, bad_r[0] if bad_r else fn["body"], "explicit returns outside the workers: %d, not the empty-vector case: %d" % (len(rets), len(bad_r)))
     # ---- the sequential reference the property compares with
     from .c15 import check_dot
     check_dot(rep, pdb, "reference/dot")
